@@ -65,9 +65,17 @@ def _make_metrics(via, B, ber_kw=None):
     return ber, bler
 
 
-def replay(hist, px, py, B, rows_choice, via="class"):
+def replay(hist, px, py, B, rows_choice, via="class", swap=None):
+    """swap: in the middle of the history the two objects are replaced by a deep copy / a pickle round trip / fresh objects loaded with their
+    state_dict (a checkpoint of the running counters); the stream then continues on the replacements."""
     ber, bler = _make_metrics(via, B)
     for idx, (op, arg, tb, eb, tbl, ebl) in enumerate(hist):
+        if swap is not None and idx == len(hist) // 2:
+            from .core import module_forms
+            f1 = dict(module_forms(ber, mk=lambda: _make_metrics("class", B)[0], kinds=(swap,)))
+            f2 = dict(module_forms(bler, mk=lambda: _make_metrics("class", B)[1], kinds=(swap,)))
+            if swap in f1 and swap in f2:
+                ber, bler = f1[swap], f2[swap]
         if op == "update":
             L = len(px[arg - 1])
             rows = rows_choice(L)
@@ -282,7 +290,7 @@ def run(run):
                 def rows_choice(L, i=i, B=B):
                     c = [rws for rws in (1, 2, 3) if L % (rws * B) == 0]
                     return c[i % len(c)]
-                d = replay(h, X, Y, B, rows_choice, via=("registry" if i % 5 == 4 else "class"))
+                d = replay(h, X, Y, B, rows_choice, via=("registry" if i % 5 == 4 else "class"), swap=(None, "state_dict", None, "deepcopy", None, "pickle", None)[i % 7])
                 run.traces += 1
                 run.case((pool, tuple((o[0], o[1]) for o in h)), nontrivial=any(o[0] == "update" for o in h))
                 if d and not bad:
